@@ -2,6 +2,7 @@ import CarModel.Proofs.Inspect
 import CarModel.Proofs.V2
 import CarModel.Proofs.InspectConv
 import CarModel.Proofs.InspectFull
+import CarModel.Properties.C02
 /-
 C13 — Inspection reports exactly what a full scan finds.
 -/
@@ -94,6 +95,43 @@ theorem inspect_iff_scan (H : HashFn) (hU : H.Uniform) (o : ReadOpts) (ht : o.tr
         indexProbe file v hdr = .ok codec ∧
         st = expectedStats v hdr roots bs codec :=
   inspect_full_iff H hU o ht hcap file st
+
+/-- (3') A corollary the verifying scan and the inspection share: **a CARv1 cut inside a section is never
+    inspected as valid.** For every valid payload and every cut that is not a section boundary,
+    `Inspect(true)` returns an error — by `inspect_iff_scan`, because the scan of the cut sections ends in
+    unexpected-EOF (C02 `scan_truncated`), not cleanly. -/
+theorem inspect_rejects_cut_v1 (H : HashFn) (hU : H.Uniform) (o : ReadOpts) (ht : o.trusted = false)
+    (hcap : o.maxSection ≤ maxDigestAlloc) (roots : Option (List Cid)) (bs : List Block)
+    (ok : PayloadOK H o roots bs) (k : Nat) (hk : k ≤ (sectionsBytes bs).length)
+    (hcut : ∀ j, (sectionsBytes bs).take k ≠ sectionsBytes (bs.take j)) (st : Stats) :
+    inspect H o true (encodeHeader ⟨roots, 1⟩ ++ (sectionsBytes bs).take k) ≠ .ok st := by
+  intro hi
+  obtain ⟨v, hdr, rs, secs, bs', codec, hc, hs, _, _⟩ :=
+    (inspect_iff_scan H hU o ht hcap _ st).mp hi
+  have hcont : container o (encodeHeader ⟨roots, 1⟩ ++ (sectionsBytes bs).take k)
+      = .ok (1, {}, roots.getD [], (sectionsBytes bs).take k) := by
+    unfold container
+    rw [readHeader_encode o.maxHeader ⟨roots, 1⟩ _ ok.hdr ok.hdrMax ok.hdr63]
+    simp [CarHeader.rootList, readHeader_encode o.maxHeader ⟨roots, 1⟩ _ ok.hdr ok.hdrMax ok.hdr63]
+  rw [hcont] at hc
+  have hsecs : secs = (sectionsBytes bs).take k := by
+    have := Except.ok.inj hc
+    simp only [Prod.mk.injEq] at this
+    exact this.2.2.2.symm
+  rw [hsecs] at hs
+  rcases C02.scan_truncated H o bs ok.blocks k hk with ⟨j, _, he, _⟩ | ⟨pre, b, post, m, _, _, _, _, hs'⟩
+  · exact hcut j he
+  · rw [hs'] at hs
+    simp only [Prod.mk.injEq] at hs
+    exact absurd hs.2 (by decide)
+
+/-- Non-vacuity of the cut premise: one byte into a one-block payload is not a section boundary. -/
+example : ∀ j, (sectionsBytes [⟨⟨1, 0x55, 0, [1, 2]⟩, [1, 2]⟩]).take 1
+    ≠ sectionsBytes (([⟨⟨1, 0x55, 0, [1, 2]⟩, [1, 2]⟩] : List Block).take j) := by
+  intro j
+  cases j with
+  | zero => simp [sectionsBytes, sectionBytes, Cid.byteLen, Cid.bytes, Cid.mhBytes, uvarint_small]
+  | succ n => simp [sectionsBytes, sectionBytes, Cid.byteLen, Cid.bytes, Cid.mhBytes, uvarint_small]
 
 /-- (3a) a CID's byte length in a section is a function of the CID: the decoders accept only the
     canonical encoding (so "CID length" statistics are determined by the scanned block list). -/
